@@ -219,13 +219,14 @@ func TestCheck(t *testing.T) {
 	defer r.Finish()
 	r.SetRule("probe cases: PRNG(seed,phase,i)-generated stepped histories (VFS: 60-260 operations over <=8 directories in 8 configurations with ~25% of operations aimed at error returns: " +
 		"deleted directories, failing InitialContentsFetcher / FileAllocator / symlink factory / pool I/O, stale leaves; NFSv4.0/4.1: scripted and random COMPOUNDs incl. bad state IDs, seqids, lease expiry; " +
-		"IdleInvoker, sector allocator, LockPile, scheduler: scripted call sequences incl. every error return reachable through the public API); after every call all locks of all objects ever seen are probed with TryLock; " +
+		"IdleInvoker, sector allocator, LockPile, scheduler: scripted call sequences incl. every error return reachable through the public API; scheduler additionally through the stepped scheduler harness internal/sched with profile C14: calls gated in the authorizer, cancellations, blocking Synchronize/TerminateWorkers, clock advances, queue lock probed at every quiescent point); after every call all locks of all objects ever seen are probed with TryLock; " +
 		"stress rounds: 8-24 goroutines x 40-120 calls on <=4 directories with opposite-direction and parent/child renames, removal of directories being entered, bulk removal racing creation, READDIR/LOOKUP with locked attributes, NFS OPEN/CLOSE/I/O racing lease expiry; " +
 		"non-trivial = the case probed after at least one error return (probe cases) or overlapped the targeted calls (stress rounds); distinct = hash of (configuration, calls, statuses)")
 	r.Assume("a probe is TryLock+Unlock at a quiescent point (no call in flight on the probed objects); a lock found held there can never be released by anyone")
 	r.Assume("only the control-flow paths the workloads execute are judged; the (function,status) pairs reached are listed as counters 'reach <pkg>.<fn>/<status>'")
 	r.Assume("a hang is a violation only if a goroutine dump shows every unfinished worker blocked inside /repo code on a lock/channel with no runnable worker left, unchanged over three looks; other non-termination is inconclusive")
-	r.Assume("NFSv4.1 in-flight duplicates of one slot/sequence are not issued here (property C19)")
+	r.Assume("scheduler phase: quiescence and the hang verdict (hang:scheduler-goroutines-blocked, scheduler-lock-held-at-quiescence) are those of the shared stepped scheduler harness (internal/sched); divergences it reports for other properties are not C14 verdicts")
+	r.Assume("NFSv4.1 in-flight duplicates of one slot/sequence are only issued as one identical retransmission in the gated NFS rounds (their replies are property C19)")
 	for _, s := range errorStatuses {
 		r.Floor("probed-after-error-return:"+s, 20)
 	}
@@ -269,6 +270,13 @@ func TestCheck(t *testing.T) {
 
 	// Phase 2: termination under concurrency.
 	runStress(r, rc)
+
+	// Phase 3: the scheduler, driven through the stepped scheduler harness
+	// (internal/sched, profile "C14"): gated KillOperations, cancellations,
+	// blocking Synchronize / TerminateWorkers and clock advances; the queue
+	// lock is probed at every quiescent point and a call that is still
+	// blocked on a mutex after the grace period is a deadlock.
+	timed(r, "scheduler-stepped", func() { runSchedulerPhase(r) })
 }
 
 // timed records how long a phase took (reporting only; no verdict depends on it).
